@@ -112,22 +112,30 @@ Theorem C03_next_act_filterexact :
 Proof. exact next_act_filterexact. Qed.
 Print Assumptions C03_next_act_filterexact.
 
+(* dyntype user: not integrated by next_act (the act_dyn callback owns the state) ... *)
 Theorem C03_next_act_user :
-  forall (h : R) (prm rng : list R) (a ad sc : R) (cl : bool), next_act h 7 prm rng a ad sc cl = a.
+  forall (h : R) (prm rng : list R) (a ad sc : R), next_act h 7 prm rng a ad sc false = a.
 Proof. exact next_act_user. Qed.
 Print Assumptions C03_next_act_user.
 
-(* actlimited: the stored activation is the clamp of the unclamped update, hence in actrange *)
+(* ... but clamped to actrange when actlimited, as mj_nextActivation does (since /repo 0fa25c6; the
+   earlier code returned before the clamp: regression probe C03:next_act:dyntype-user-skips-actlimited-clamp) *)
+Theorem C03_next_act_user_clamped :
+  forall (h : R) (prm rng : list R) (a ad sc : R),
+    next_act h 7 prm rng a ad sc true = Rclamp a (vget rng 0) (vget rng 1).
+Proof. exact next_act_user_clamped. Qed.
+Print Assumptions C03_next_act_user_clamped.
+
+(* actlimited, EVERY dyntype: the stored activation is the clamp of the unclamped update, hence in actrange *)
 Theorem C03_next_act_clamp :
   forall (h : R) (dyn : Z) (prm rng : list R) (a ad sc : R),
-    dyn <> 7%Z ->
     next_act h dyn prm rng a ad sc true = Rclamp (next_act h dyn prm rng a ad sc false) (vget rng 0) (vget rng 1).
 Proof. exact next_act_clamp. Qed.
 Print Assumptions C03_next_act_clamp.
 
 Theorem C03_next_act_limited :
   forall (h : R) (dyn : Z) (prm rng : list R) (a ad sc : R),
-    dyn <> 7%Z -> vget rng 0 <= vget rng 1 ->
+    vget rng 0 <= vget rng 1 ->
     vget rng 0 <= next_act h dyn prm rng a ad sc true <= vget rng 1.
 Proof. exact next_act_limited. Qed.
 Print Assumptions C03_next_act_limited.
